@@ -1,3 +1,4 @@
+import YakModel.Proofs.StorageDDLProofs
 import YakModel.Proofs.StorageProofs
 /-!
 # C13 — Storages are isolated namespaces with map-like create/delete/find/list (sequential part)
@@ -46,5 +47,54 @@ theorem one_winner (s : Stores) (n : Name) (h : WF s) (ha : find s n = none) (k 
     let run := (List.range k).foldl
       (fun (acc : Stores × List Status) _ => let r := create acc.1 n; (r.1, acc.2 ++ [r.2])) (s, [])
     run.2.count Status.OK = 1 := Yak.Storage.one_winner s n h ha k hk
+
+/-! ### The concurrent clause: create_storage / delete_storage as a protocol (`Proto/StorageDDL`)
+
+Any number of threads run `create_storage` / `delete_storage` on any names; the directory's own
+`put_unique` / `get` / `remove` are atomic steps (they are linearizable, C01), everything else of
+`storage_impl.h` is a step of its own: the look-up and the remove of `delete_storage` are TWO steps,
+and so are the destruction of the root and the clearing of the root pointer. `Cfg.fix` is the
+repaired code (commit "fix: delete_storage calls are serialized"). D14 — found on the real code by
+the thorough tier — is the counterexample for the unrepaired one. -/
+
+/-- with the repair no tree is destroyed twice and no destroyed root is touched, in every reachable
+    state, for any number of threads, names and operations. -/
+theorem ddl_no_double_destroy (c : Yak.Proto.StorageDDL.Cfg) (hf : c.fix = true)
+    (s : Yak.Proto.StorageDDL.State) (h : Yak.Proto.StorageDDL.Reach c s) :
+    s.uaf = false ∧ s.destroyed.Nodup := Yak.Proto.StorageDDL.no_double_destroy_fixed hf h
+
+/-- a tree is destroyed only by a delete that erased ITS entry, and once all operations have
+    returned every erased entry's tree has been destroyed ("delete removes the name and all its
+    entries" — nothing leaks). -/
+theorem ddl_destroy_matches_remove (c : Yak.Proto.StorageDDL.Cfg) (hf : c.fix = true)
+    (s : Yak.Proto.StorageDDL.State) (h : Yak.Proto.StorageDDL.Reach c s) :
+    (∀ x ∈ s.destroyed, x ∈ s.removedEntries) ∧
+    (Yak.Proto.StorageDDL.Quiescent s → ∀ x ∈ s.removedEntries, x ∈ s.destroyed) :=
+  ⟨Yak.Proto.StorageDDL.destroy_matches_remove_fixed hf h,
+   fun hq => Yak.Proto.StorageDDL.no_leak_at_quiescence_fixed hf h hq⟩
+
+/-- no registered name ever points to a destroyed tree. -/
+theorem ddl_directory_trees_live (c : Yak.Proto.StorageDDL.Cfg) (hf : c.fix = true)
+    (s : Yak.Proto.StorageDDL.State) (h : Yak.Proto.StorageDDL.Reach c s) :
+    ∀ p ∈ s.dir, s.rootLive p.2 = true ∧ s.rootPtrSet p.2 = true :=
+  Yak.Proto.StorageDDL.directory_trees_live hf h
+
+/-- at most one entry per name and one name per tree, in every reachable state (any cfg): of
+    several concurrent creates of one name exactly one `put_unique` finds it absent. -/
+theorem ddl_one_entry_per_name (c : Yak.Proto.StorageDDL.Cfg) (s : Yak.Proto.StorageDDL.State)
+    (h : Yak.Proto.StorageDDL.Reach c s) :
+    (s.dir.map (·.1)).Nodup ∧ (s.dir.map (·.2)).Nodup := Yak.Proto.StorageDDL.one_winner h
+
+/-- D14 without the repair: `T0: create n; delete n ‖ T1: create n ‖ T2: delete n` reaches a state
+    in which tree 0 has been destroyed twice, and another schedule in which the re-created tree is
+    leaked without any double destroy. -/
+theorem D14_counterexample :
+    (∃ s, Yak.Proto.StorageDDL.Reach {fix := false} s ∧ s.uaf = true ∧ ¬ s.destroyed.Nodup ∧
+      Yak.Proto.StorageDDL.Quiescent s) ∧
+    (∃ s, Yak.Proto.StorageDDL.Reach {fix := false} s ∧ Yak.Proto.StorageDDL.Quiescent s ∧
+      (∃ x ∈ s.removedEntries, x ∉ s.destroyed ∧ s.rootLive x = true) ∧ s.uaf = false) := by
+  obtain ⟨s, hr, _, hu, hn, hq⟩ := Yak.Proto.StorageDDL.D14_counterexample
+  obtain ⟨s', hr', _, hq', hl, hu'⟩ := Yak.Proto.StorageDDL.D14_leak
+  exact ⟨⟨s, hr, hu, hn, hq⟩, ⟨s', hr', hq', hl, hu'⟩⟩
 
 end Yak.Props.C13
